@@ -126,4 +126,18 @@ META = {
         exhaustive={"quick": False, "thorough": False},
         assumptions=["outcome = type-strict value or (exception class, structural error signature)", "cache monitor wraps BuiltinMediator.cached_call from the harness; zero hits make the run inconclusive"],
     ),
+    "C12": _m(
+        "9 scenarios of 2-3 threads issuing first-use calls on ONE retort (same self-recursive model; mutually recursive models from different ends; List[Node] vs Node; "
+        "loader vs dumper; generic recursive; non-recursive; two dumpers; ConversionRetort.get_converter; three threads), each thread body = get_loader/get_dumper/"
+        "get_converter + an immediate deep call. Schedules come from a deterministic scheduler at statement (LINE) granularity inside the retort's lookup/creation/caching "
+        "files: (i) single-preemption sweep - thread X runs to in-scope point k, the other runs to completion, X resumes - for EVERY point of both threads of the two recursive "
+        "scenarios (quick; all two-thread scenarios thorough) and a stride over the others; (ii) sampled two-preemption schedules; (iii) PCT-style schedules with 2-4 "
+        "priority change points; (iv) uniform random switching with p in {0.002, 0.01, 0.05}; a free-running 8-thread stress leg. Oracle: per-call comparison with a "
+        "single-threaded run on a fresh retort + re-probing every obtained callable after quiescence. distinct = (scenario, switch-point sequence); non-trivial = >= 1 context switch",
+        cases=(40, 2500), budget=(55, 420),
+        minimums={"quick": {"schedules": 1500, "schedules_with_switch": 1200, "context_switches": 1500, "distinct_nontrivial": 1000, "line_events": 1000000}},
+        assumptions=["interleavings are explored at statement granularity inside morphing/facade/retort.py, retort/{searching_retort,builtin_mediator,operating_retort,request_bus,base_retort}.py, "
+                     "conversion/facade/retort.py; providers and generated code run atomically between two in-scope lines; code_tools/compiler.py (the only lock) is outside the yield scope",
+                     "a watchdog firing (20 s without completion) is reported as no-progress"],
+    ),
 }
